@@ -7,6 +7,11 @@ props = [json.loads(l) for l in open(os.path.join(ROOT, "properties.jsonl"))]
 
 # id -> (category, technique, level text, level note, design ref)
 CLAIMED = {
+ "C01": ("exploration",
+         "rapid-generated builder programs rendered with Msg.WriteTo and read back by an independent MIME reader (model-based round trip: leaf list, nesting, boundaries, decoded bytes), cross-checked against net/mail + mime/multipart; plus exhaustive enumeration of all small shape tuples",
+         "Generated-input search against a reference model of the expected leaves. All (parts 0..3 x embeds 0..3 x attachments 0..3 x 3 encodings x 3 content classes) shape tuples are enumerated completely; everything else (contents, per-leaf options, sources) is sampled, so absence of violations is statistical.",
+         "The harness' own MIME reader is the oracle (disagreement with the stdlib readers is reported as a harness error, never as a violation). QP text is generated with CRLF/LF breaks only; caller-chosen boundaries are not generated.",
+         "DESIGN.md section 3, C01"),
  "C12": ("fault_enumeration",
          "rapid-generated message programs x exhaustive sink-offset fault injection (every byte offset, two sink modes, first/second render) + producer fault injection; oracle: no panic, err != nil, returned count == bytes accepted by the sink",
          "For every generated message program the check enumerates EVERY byte offset at which the destination can start failing (complete for that program) and injects producer failures; the programs themselves are sampled by rapid, so the guarantee is exhaustive per shape and statistical across shapes.",
